@@ -501,6 +501,9 @@ func csvtMutate(rng *Rng, text string) (string, string) {
 	case 13: // a doubled quote inside a value cell
 		if a, b, ok := pick(); ok {
 			p := a + rng.Intn(b-a+1)
+			for p < b && l[p]&0xC0 == 0x80 { // not inside a multi-byte character (the encoder rejects a string that is not UTF-8: not the converters' business)
+				p++
+			}
 			l = l[:p] + `""` + l[p:]
 			name = "doubled-quote-in-value"
 		}
